@@ -520,6 +520,135 @@ func c08CheckIn(c *fw.Ctx, env *t8Env, cs c08Case) {
 	c.Outcome(fmt.Sprintf("in %d rows", len(got.Rows)))
 }
 
+// --- several IN (SELECT ...) in one WHERE, and nested ones ---------------------
+
+type c08Sub struct{ Dim, Sub string }
+
+func c08Subs() []c08Sub {
+	return []c08Sub{
+		{"x", "SELECT x FROM t8 WHERE y = true"},
+		{"x", "SELECT x FROM t8 WHERE z = 'a'"},
+		{"x", "SELECT x FROM t8 HAVING a > 4"},
+		{"x", "SELECT x FROM t8 WHERE x > 5"},
+		{"x", "SELECT x FROM t8 GROUP BY x"},
+		{"z", "SELECT z FROM t8 WHERE x = 1"},
+		{"z", "SELECT z FROM t8 HAVING a > 8"},
+		{"z", "SELECT z FROM t8 WHERE x > 1 GROUP BY z"},
+	}
+}
+
+type c08Multi struct {
+	Subs  []c08Sub
+	Outer string // one %s per sub, in order
+	// Nested: Subs[0] sits inside the WHERE of a second subquery "SELECT x FROM t8 WHERE <dim> IN (%s)"
+	Nested bool
+}
+
+// c08Multis: every ordered pair of subqueries under AND, OR and AND NOT, every triple of distinct subqueries under
+// "s1 AND (s2 OR s3)", and every subquery nested inside every other subquery's WHERE.
+func c08Multis() []c08Multi {
+	subs := c08Subs()
+	var out []c08Multi
+	in := func(s c08Sub) string { return s.Dim + " IN (%s)" }
+	for i, s1 := range subs {
+		for j, s2 := range subs {
+			if i == j {
+				continue
+			}
+			out = append(out,
+				c08Multi{Subs: []c08Sub{s1, s2}, Outer: "SELECT a, ca FROM t8 WHERE " + in(s1) + " AND " + in(s2)},
+				c08Multi{Subs: []c08Sub{s1, s2}, Outer: "SELECT a FROM t8 WHERE " + in(s1) + " OR " + in(s2) + " GROUP BY x"},
+				c08Multi{Subs: []c08Sub{s1, s2}, Outer: "SELECT * FROM t8 WHERE " + in(s1) + " AND NOT (" + in(s2) + ")"})
+			if j > i {
+				for k, s3 := range subs {
+					if k > j {
+						out = append(out, c08Multi{Subs: []c08Sub{s1, s2, s3}, Outer: "SELECT a FROM t8 WHERE " + in(s1) + " AND (" + in(s2) + " OR " + in(s3) + ") GROUP BY y"})
+					}
+				}
+			}
+		}
+	}
+	for _, s1 := range subs {
+		out = append(out, c08Multi{Subs: []c08Sub{s1}, Outer: "SELECT a, ca FROM t8 WHERE x IN (SELECT x FROM t8 WHERE " + in(s1) + ")", Nested: true})
+	}
+	return out
+}
+
+// c08SubLiterals runs a subquery alone and returns its distinct values as a literal list ("" , false if a row lacks
+// the dimension: membership of "absent" is not defined by the property).
+func c08SubLiterals(c *fw.Ctx, env *t8Env, cs c08Case, sb c08Sub) (string, bool) {
+	alone := strings.Replace(sb.Sub, "SELECT "+sb.Dim+" FROM", "SELECT _points FROM", 1)
+	sub, err := env.db.Query(alone, true)
+	if err != nil {
+		c.Violate("C08", "query-error", fmt.Sprintf("%s: %v", alone, err), cs)
+		return "", false
+	}
+	distinct := map[string]bool{}
+	for _, r := range sub.Rows {
+		v, ok := r.Key[sb.Dim]
+		if !ok {
+			c.Count("in_subqueries_with_absent_value_skipped", 1)
+			return "", false
+		}
+		if lit, ok := c08Literal(v); ok {
+			distinct[lit] = true
+		}
+	}
+	var lits []string
+	for l := range distinct {
+		lits = append(lits, l)
+	}
+	sort.Strings(lits)
+	if len(lits) == 0 {
+		if sb.Dim == "x" {
+			return "-12345", true
+		}
+		return "'\u0001never'", true
+	}
+	return strings.Join(lits, ", "), true
+}
+
+func c08CheckMulti(c *fw.Ctx, env *t8Env, cs c08Case) {
+	m := c08Multis()[cs.Index]
+	c.Eval(1)
+	var subArgs, litArgs []interface{}
+	for _, sb := range m.Subs {
+		l, ok := c08SubLiterals(c, env, cs, sb)
+		if !ok {
+			return
+		}
+		subArgs = append(subArgs, sb.Sub)
+		litArgs = append(litArgs, l)
+	}
+	withSub, withList := fmt.Sprintf(m.Outer, subArgs...), fmt.Sprintf(m.Outer, litArgs...)
+	if m.Nested {
+		mid := fmt.Sprintf("SELECT x FROM t8 WHERE "+m.Subs[0].Dim+" IN (%s)", litArgs[0])
+		lx, ok := c08SubLiterals(c, env, cs, c08Sub{"x", mid})
+		if !ok {
+			return
+		}
+		withList = fmt.Sprintf("SELECT a, ca FROM t8 WHERE x IN (%s)", lx)
+	}
+	got, err := env.db.Query(withSub, true)
+	if err != nil {
+		c.Violate("C08", "query-error", fmt.Sprintf("%s: %v", withSub, err), cs)
+		return
+	}
+	want, err := env.db.Query(withList, true)
+	if err != nil {
+		c.Violate("C08", "query-error", fmt.Sprintf("%s: %v", withList, err), cs)
+		return
+	}
+	if fmt.Sprint(got.Fields, got.Canon()) != fmt.Sprint(want.Fields, want.Canon()) {
+		c.Violate("C08", "in-subqueries-differ-from-literal-lists", fmt.Sprintf("dataset %d:\n%s\n%v %v\n%s\n%v %v", cs.Dataset, withSub, got.Fields, got.Canon(), withList, want.Fields, want.Canon()), cs)
+		return
+	}
+	if len(got.Rows) > 0 {
+		c.Nontrivial(fmt.Sprintf("m|%d|%s", cs.Dataset, withSub))
+	}
+	c.Outcome(fmt.Sprintf("multi-in %d rows", len(got.Rows)))
+}
+
 // --- FROM (subquery) -------------------------------------------------------
 
 type c08From struct {
@@ -639,6 +768,8 @@ func c08Dispatch(c *fw.Ctx, env *t8Env, cs c08Case) {
 		c08CheckHaving(c, env, cs)
 	case "in":
 		c08CheckIn(c, env, cs)
+	case "multi":
+		c08CheckMulti(c, env, cs)
 	case "from":
 		c08CheckFrom(c, env, cs)
 	}
@@ -648,7 +779,7 @@ func init() {
 	fw.Register(&fw.Prop{
 		ID:          "C08",
 		Level:       "exploration",
-		Rule:        "6 datasets (typed dims x int, y bool, z string, each sometimes absent; part flushed) × WHERE: 10 atoms (=, <>, <, >, IN, LIKE, IS NULL, IS NOT NULL, bool =, LEN()=) and their negations as units, every unit and every AND/OR pair of units (820 predicates; quick: every third) × 3 query shapes (native, GROUP BY x, GROUP BY y with period(2s)), judged by a three-valued evaluator written for the harness (comparisons against an absent dim are unknown = unconstrained) through the interval oracle: rows must contain exactly the satisfying points (identified by power-of-two values) and aggregates recomputed from them; HAVING: 20 value predicates (comparisons, + - * /, selected / unselected / sometimes-unset / never-set operands) × 4 select lists × 3 shapes against the HAVING-free query with the operands added, no _having column, same width; IN (SELECT …): 12 sub/outer pairs vs the literal list of distinct values; FROM (subquery): 20 outer×inner pairs vs re-aggregation of the materialised inner rows; non-trivial = filter keeps some but not all",
+		Rule:        "6 datasets (typed dims x int, y bool, z string, each sometimes absent; part flushed) × WHERE: 10 atoms (=, <>, <, >, IN, LIKE, IS NULL, IS NOT NULL, bool =, LEN()=) and their negations as units, every unit and every AND/OR pair of units (820 predicates; quick: every third) × 3 query shapes (native, GROUP BY x, GROUP BY y with period(2s)), judged by a three-valued evaluator written for the harness (comparisons against an absent dim are unknown = unconstrained) through the interval oracle: rows must contain exactly the satisfying points (identified by power-of-two values) and aggregates recomputed from them; HAVING: 20 value predicates (comparisons, + - * /, selected / unselected / sometimes-unset / never-set operands) × 4 select lists × 3 shapes against the HAVING-free query with the operands added, no _having column, same width; IN (SELECT …): 12 sub/outer pairs vs the literal list of distinct values, and several subqueries in one WHERE (every ordered pair of 8 subqueries under AND / OR / AND NOT, every triple under s1 AND (s2 OR s3), every subquery nested in another one's WHERE: 232 combinations) vs the same WHERE over the literal lists; FROM (subquery): 20 outer×inner pairs vs re-aggregation of the materialised inner rows; non-trivial = filter keeps some but not all",
 		Assumptions: []string{"a comparison against an absent dimension leaves the point unconstrained", "HAVING rows in which an operand is unset are unconstrained"},
 		Shards:      func(tier string) int { return 12 },
 		Budget:      func(tier string) time.Duration { return 30 * time.Minute },
@@ -690,6 +821,9 @@ func init() {
 				}
 				for ii := range c08InQueries {
 					c08CheckIn(c, env, c08Case{Kind: "in", Dataset: ds, Index: ii})
+				}
+				for mi := range c08Multis() {
+					c08CheckMulti(c, env, c08Case{Kind: "multi", Dataset: ds, Index: mi})
 				}
 				for fi := range c08Froms() {
 					c08CheckFrom(c, env, c08Case{Kind: "from", Dataset: ds, Index: fi})
